@@ -292,7 +292,8 @@ class FakeNet:
         self.finalizer_closed: list = []  # connections the client dropped without closing them (closed by StreamWriter.__del__)
         self.arm_bytes_on_accept: list = []   # byte offsets at which the next accepted connections die while being written to
         self.pause_on_accept: list = []  # back-pressure positions (n-th write) for the next accepted connections
-        self.slow_peer = False           # peers take bytes late: transports keep written objects by reference until flushed
+        self.slow_peer = True            # peers take bytes late: transports keep written (mutable) objects by reference until flushed;
+                                         # sound at any time (the kernel buffer may always be full) and inert for immutable bytes
         self.altered: list = []          # writes whose object was changed between write() and the flush
         _CURRENT[0] = self
 
